@@ -576,7 +576,13 @@ func (fx *fnExec) evalBin(x EBin, env *SpecEnv) SV {
 	case "/":
 		return Sc{app(SInt, "div", ta, tb), nil}
 	case "%":
-		return Sc{app(SInt, "mod", ta, tb), nil}
+		r := app(SInt, "mod", ta, tb)
+		if _, lit := isNumeral(tb); !lit && !strings.Contains(r.S, "$q") {
+			// linear consequences of the Euclidean remainder with a symbolic divisor
+			fx.assume(tImp(app(SBool, ">", tb, intLit64(0)), tAnd(app(SBool, "<=", intLit64(0), r), app(SBool, "<", r, tb),
+				tImp(tAnd(app(SBool, "<=", intLit64(0), ta), app(SBool, "<", ta, tb)), tEq(r, ta)))))
+		}
+		return Sc{r, nil}
 	case "<":
 		return Sc{app(SBool, "<", ta, tb), nil}
 	case "<=":
